@@ -267,14 +267,20 @@ def run(ctx):
     root_uri = None
     recs, origin = [], []
     answered = 0
+    crashed = set()
     for r in out:
         mt = meta[r["run"]]
         for e in r["events"]:
-            if e["ev"] == "panic":
-                ctx.divergence({"what": "handler panic (owned by C25/C12)", "msg": e["msg"][:200], "run": r["run"]})
-            if e["ev"] != "ssend" or e["kind"] != "resp" or not e.get("ok"):
+            if e["ev"] != "ssend" or e["kind"] != "resp" or e["id"] not in mt["reqs"]:
                 continue
-            if e["id"] not in mt["reqs"]:
+            if not e.get("ok"):
+                # no result at all: InternalError is what ServerContext::task answers when the handler panicked
+                if e.get("code") == -32603:
+                    crashed.add(mt["reqs"][e["id"]][0])
+                    ctx.violation("C26/%s/internal-error" % mt["reqs"][e["id"]][0],
+                                  {"document": mt["text"], "templates": mt["doc"], "request": mt["reqs"][e["id"]][1],
+                                   "answer": {k: v for k, v in e.items() if k != "result"},
+                                   "panics_in_run": [x["msg"][:300] for x in r["events"] if x["ev"] == "panic"][:3]})
                 continue
             method, params = mt["reqs"][e["id"]]
             answered += 1
@@ -290,6 +296,8 @@ def run(ctx):
             ctx.count((json.dumps(mt["doc"]["stmts"]), mt["doc"]["crlf"], mt["doc"]["final"], method, json.dumps(params, sort_keys=True)),
                       nontrivial=res is not None)
     if not recs:
+        if crashed:
+            return
         raise vlib.ToolError("no structured results recorded")
     rpath = os.path.join(ctx.work, "results.ndjson")
     with open(rpath, "w") as f:
@@ -328,7 +336,7 @@ def run(ctx):
     ctx.note("responses_ok", answered)
     ctx.note("records_by_kind", kinds)
     need = {"ranges", "semtok", "symbols", "folding", "selection", "completion", "edits"}
-    if not need <= set(kinds):
+    if not need <= set(kinds) and not crashed:
         raise vlib.ToolError("result kinds never produced: %s" % sorted(need - set(kinds)))
     ctx.rule("distinct (document, request, params) with a non-null result; every recorded structured result judged by TLC "
              "with the predicates of spec/LsResults.tla")
